@@ -216,6 +216,7 @@ func c18Directed(r *hx.Run, cw *c18World, ps *plans, rnd *rand.Rand, n int) {
 		r.Add("purges_during_held_fetch", 1)
 		if pr == nil {
 			pr = <-pdone
+			hangSeen(r)
 			r.Violate("purge_blocked_behind_fetch", nil, "the purge did not return while the fetch was held at the origin", pr.Brief(), cs)
 		} else if !(pr.RetSeq < releaseSeq && stillHeld) {
 			r.Inconclusive("C18 directed: fetch ended before the purge was observed")
@@ -227,6 +228,7 @@ func c18Directed(r *hx.Run, cw *c18World, ps *plans, rnd *rand.Rand, n int) {
 		select {
 		case <-all:
 		case <-time.After(20 * time.Second):
+			hangSeen(r)
 			r.Violate("waiters_stranded_by_purge", nil, "requests of the purged in-flight fetch never returned", map[string]interface{}{"blocked_goroutines": pikeGoroutines()}, cs)
 			return
 		}
@@ -366,6 +368,7 @@ func c18Porcupine(r *hx.Run, cw *c18World, ps *plans, rnd *rand.Rand, n int) {
 }
 
 func c18(r *hx.Run) {
+	r.MaxViol = 6 // violations here usually cost a watchdog period each
 	r.Rule = "three caches (one without store, two with scripted in-memory stores) behind three servers sharing the client-supplied Host; purges through the real admin DELETE /cache. basics: fetch+hit on every cache, one purge variant {named, unnamed, absent cache, absent key, named twice}, store records inspected, next request per cache and for a neighbour key judged by the entry model; directed: purge while the fetch is held at the origin with 1-5 parked waiters (must return before the release, nobody stranded); porcupine: 6 clients + 2 purgers + clock advancer, per (cache,key) linearizability. Non-trivial = case with a purge of a present key; distinct = variant/partition."
 	r.Assume = []string{"virtual clock, hook points", "the in-memory store stands for the persistent store (badger itself in C08)", "-race build"}
 	rnd := rand.New(rand.NewSource(r.Seed))
